@@ -132,7 +132,8 @@ def check_cli(case):
         except Exception as e:  # noqa
             viol.append({"kind": "quiet-output-is-not-the-document", "detail": {"output": " ".join(argv), "sources": case["state"], "problem": str(e)[:100], "stdout_head": out[:200]}})
     else:
-        if not out.lstrip().startswith("#"):
+        # any text is well-formed Markdown: only an empty document (nothing rendered at all) is judged here
+        if "#" not in out:
             viol.append({"kind": "quiet-output-is-not-the-document", "detail": {"output": " ".join(argv), "sources": case["state"], "stdout_head": out[:200]}})
     shutil.rmtree(base, ignore_errors=True)
     return {"evals": 1, "nontrivial": 1 if case["state"] != "all-ok" else 0, "outcomes": ["cli-" + case["cli"]], "violations": viol,
